@@ -12,7 +12,7 @@ import z3
 
 from . import drv, vals, solve, validate, gen, mpc_common as mc, progs_mpc
 from .cctypes import T
-from .common import Check, pool_map
+from .common import Check, pool_map, safe_analyze
 from .interp import Interp, Unsupported, input_types, flat_elems, shape_of, shape_of_type
 
 
@@ -47,6 +47,7 @@ def compare_outputs(it, case, f_out, s_out):
     return mc.eq_pairs(mc.sum3(it, f_out), s_out)
 
 
+@safe_analyze(lambda a: dict(id=a[0]["id"], status=None, queries=[], note="", cex=None, n_nodes=0, validated=0, mism=[]))
 def analyze(args):
     case, res, timeout_s = args
     out = dict(id=case["id"], status=None, queries=[], note="", cex=None, n_nodes=0, validated=0, mism=[])
